@@ -530,12 +530,11 @@ def nontrivial(case, impl):
 
 
 def project(r):
+    """the property speaks about successful parses: the whole reported matches; which error a rejected
+    line gets is the business of C10"""
     p = parse_result(r)
     if p["kind"] == "err":
-        k = p["ekind"].split("|")[0]
-        if k in ("UnknownArgument", "InvalidSubcommand"):
-            k = "Unknown*"
-        return "err %s %s %s" % (k, p["stream"], p["code"])
+        return "help-or-version" if p["ekind"].split("|")[0] in ("DisplayHelp", "DisplayVersion") else "err"
     if p["kind"] == "panic":
         return "panic"
     return r
